@@ -30,8 +30,8 @@ CLAIMED = {
          "composed into one theorem from request target to physical.path; the X-Sendfile and Destination step order is re-read from the source; "
          "tied in-process (roots_h.c) and on 17 running-server configurations whose debug.log-request-handling output is compared line by line",
     note="trusted: Coq kernel, c2v.py (incl. the step-order reader c2v_roots.py), extraction, harness glue; kernel path resolution is outside the "
-         "model (containment is lexical; with follow-symlink disabled the walk theorem covers links); host-strict mode relies on the hypothesis "
-         "that an accepted Host has no '/' and no leading '.', which the server runs check on every logged authority; evhost dot-freeness and "
+         "model (containment is lexical; with follow-symlink disabled the walk theorem covers links); in host-strict mode the Host needs no hypothesis "
+         "(request_check_hostname/host_normalize results proved free of '/' and leading '.'); requests are also sent over HTTP/2; evhost dot-freeness and "
          "force-lowercase-filenames are covered by correspondence only; getpwnam-based userdir is not modelled (see DESIGN 5/C02, 11.9)",
     technique="Coq proof over executable model + exhaustive differential correspondence (extracted OCaml vs C harness and vs the running server)",
     design="5/C02"),
@@ -49,9 +49,12 @@ CLAIMED = {
     text="Coq theorems over an executable model of the rule/template machinery (keyvalue.c subst/subst_ext/process, burl_append and its encoders, "
          "base64url codec, mod_rewrite once/repeat loop): modifier keywords set the flag they name (regenerated from source), tolower/toupper laws, "
          "esc and base64url round-trips for all byte strings, first-match-wins, literal templates verbatim, repeat bounded by the loop limit, "
-         "once applies once; tied by differential correspondence with real PCRE2 as match oracle and a reference interpreter as monitor",
-    note="trusted: Coq kernel, c2v.py, extraction, harness glue, python reference interpreter (monitor); PCRE2 is an oracle (match outcomes are "
-         "inputs of the model); mod_redirect/mod_alias/vhost composition not yet modelled (mod_alias prefix/docroot join is covered under C02)",
+         "once applies once; alias.url applies the first key in order that prefixes the URL path and replaces exactly it; simple-vhost roots are "
+         "server-root + host name + document-root; tied by differential correspondence with real PCRE2 as match oracle and reference interpreters "
+         "(rules; alias/simple-vhost/evhost written from the modules' documentation) as monitors",
+    note="trusted: Coq kernel, c2v.py, extraction, harness glue, python reference interpreters (monitors); PCRE2 is an oracle (match outcomes are "
+         "inputs of the model); evhost %N semantics are shown on the documented example and by correspondence, not by a general theorem; "
+         "mod_redirect shares the rule machinery and is not run separately; re-encoding templates are kept out of rewrite-repeat (size blow-up, DESIGN 11.6)",
     technique="Coq proof over executable model + differential correspondence (extracted OCaml vs C harness with real PCRE2)",
     design="5/C20"),
  "C17": dict(
@@ -116,8 +119,9 @@ CLAIMED = {
          "urldecode; letter case is invisible to mod_access under force-lowercase; forwarded headers are ignored from untrusted peers and yield the last "
          "untrusted hop otherwise; tied by differential correspondence against the real lighttpd (5 configurations, respelling chains, trusted/untrusted "
          "loopback peers) and a marker monitor (protected files' markers must never reach a client not entitled to them)",
-    note="PARTIAL: invariance of the canonical path under every respelling is proved at the decode layer only (burl_normalize composition, HTTP/2 and the "
-         "Forwarded parser are covered by correspondence/monitor, not theorems); 1 known finding (url conditions are case-sensitive under force-lowercase-filenames); "
+    note="PARTIAL: invariance of the canonical path under every respelling is proved at the decode layer only (burl_normalize composition, HTTP/2 - every fifth "
+         "request is repeated over h2c and must be decided like its HTTP/1.1 twin - and the Forwarded parser are covered by correspondence/monitor, not theorems); "
+         "2 known findings (url conditions are case-sensitive under force-lowercase-filenames; an X-Forwarded-For hop without address characters is skipped); "
          "symlinks, index files, mod_magnet/mod_rewrite interplay not modelled; absolute-form targets monitor-only; trusted: Coq kernel, extraction, "
          "lib/srv.py (real server over loopback), python monitor",
     technique="Coq proof over executable model + differential correspondence (extracted OCaml vs real lighttpd over loopback) + marker monitor",
